@@ -236,6 +236,7 @@ def run(chk: core.Check):
     for ls in core.parallel(_record, [rng.randrange(1 << 30) for _ in range(80 if quick else 800)], {"maxobj": 25 if quick else 40}):
         lines.extend(ls)
     rej = trace_validate(chk, lines)
+    core.canary(chk, lines, trace_validate, what="Trace_LegacyTrav", skip=set(rej))
     chk.traces_accepted += len(lines) - len(rej)
     chk.evaluations += len(lines)
     for i in rej[:25]:
